@@ -138,7 +138,7 @@ def ulp(x):
 
 
 class Arr:
-    __slots__ = ("name", "typ", "val", "err", "st", "exists", "taint", "gexact", "opaque")
+    __slots__ = ("name", "typ", "val", "err", "st", "exists", "taint", "gexact", "opaque", "gst")
 
     def __init__(self, name, n):
         a = ARR[name]
@@ -154,6 +154,10 @@ class Arr:
         else:
             self.val = [None] * n
             self.st = [0] * n
+        # status the library keeps in the GLOBAL copy of a global-storage array.  Region operations
+        # do not update it (known defect regop-global-status-stale); the library then refuses
+        # ADD/MULTIPLY/MIN/MAX, COPY and OPERATE that read such cells, so those are not generated.
+        self.gst = list(self.st) if a["glob"] else None
         self.exists = False      # has been the target of an operation (the library requires this
         #                          for ADD/MULTIPLY/MINVALUE/MAXVALUE on non-multiplier arrays)
         self.taint = set()       # keys of known library defects that may have influenced this array
@@ -174,6 +178,7 @@ class Model:
         self.box = list(self.full)
         self.sec = None
         self.props_used_opernum = False
+        self.in_region_op = False
         self.props_after_opernum = set()   # PROPS arrays touched after the first use of region set OPERNUM in PROPS
 
     # ---- helpers
@@ -295,6 +300,8 @@ class Model:
             else:
                 a.val[c], a.err[c] = self.conv(name, v)
             a.st[c] = 2
+            if a.gst is not None:
+                a.gst[c] = 2
         a.exists = True
 
     def _scalar_cells(self, a, name, kind, cs, v):
@@ -309,6 +316,8 @@ class Model:
             raise Invalid("array must exist")
         if any(a.st[c] == 0 for c in cs):
             raise Invalid("operation on undefined cells")
+        if a.gst is not None and not self.in_region_op and any(a.gst[c] == 0 for c in cs):
+            raise Invalid("global copy has stale statuses after a region operation")
         if a.typ == "i":
             if v != int(v):
                 raise Invalid("int scalar")
@@ -345,6 +354,8 @@ class Model:
             x, e = a.val[c], a.err[c]
             if kind == "EQUALS":
                 a.val[c], a.err[c], a.st[c] = s, es, 2
+                if a.gst is not None and not self.in_region_op:
+                    a.gst[c] = 2
                 continue
             if x is None:
                 continue                                     # unknown default stays unknown
@@ -400,17 +411,17 @@ class Model:
             raise Invalid("source cells without deck value")
         if d_info["glob"] and not s_info["glob"] and not region:
             raise Invalid("storage mismatch")
-        if d_info["glob"] and not region and not s.gexact:
-            # after a region operation the global copy of a global-storage array keeps stale
-            # statuses (update_global_from_local) and the library refuses to read it: not generated
-            raise Invalid("global storage of the source is stale after a region operation")
+        if d_info["glob"] and not region and any(s.gst[c] != 2 for c in cs):
+            raise Invalid("global copy of the source has stale statuses after a region operation")
         if d_info["pos"] and any(s.val[c] is None or s.val[c] <= 0 for c in cs):
             raise Invalid("positive array")
         return s
 
-    def _do_copy(self, s, d, cs):
+    def _do_copy(self, s, d, cs, region=False):
         for c in cs:
             d.val[c], d.err[c], d.st[c] = s.val[c], s.err[c], s.st[c]
+            if d.gst is not None and not region:
+                d.gst[c] = s.gst[c]
         d.taint |= s.taint
         d.exists = True
 
@@ -518,11 +529,12 @@ class Model:
             raise Invalid("target undefined")
         if d_info["glob"] and not s_info["glob"]:
             raise Invalid("storage mismatch")
-        if d_info["glob"] and not region and (not s.gexact or (fn in ("MULTIPLY", "POLY") and not d.gexact)):
-            raise Invalid("global storage is stale after a region operation")
+        if d_info["glob"] and not region and (any(s.gst[c] == 0 for c in cs) or
+                                              (fn in ("MULTIPLY", "POLY") and any(d.gst[c] == 0 for c in cs))):
+            raise Invalid("global copy has stale statuses after a region operation")
         return s, d
 
-    def _do_operate(self, dst, fn, s, d, cs, a, b):
+    def _do_operate(self, dst, fn, s, d, cs, a, b, region=False):
         new = []
         for c in cs:
             new.append(self._fn(fn, dst, d.val[c], d.err[c], s.val[c], s.err[c], a, b))
@@ -531,6 +543,8 @@ class Model:
                 raise Invalid("overflow")
         for c, (y, e) in zip(cs, new):
             d.val[c], d.err[c], d.st[c] = y, e, s.st[c]
+            if d.gst is not None and not region:
+                d.gst[c] = s.gst[c]
         d.taint |= s.taint
         d.exists = True
 
@@ -571,7 +585,11 @@ class Model:
                 a.exists = saved
         if ARR[name]["pos"] and v <= 0:
             raise Invalid("positive array")
-        self._apply_scalar(a, name, k, cs, v)
+        self.in_region_op = True
+        try:
+            self._apply_scalar(a, name, k, cs, v)
+        finally:
+            self.in_region_op = False
         a.taint |= r.taint
         if cs:
             a.gexact = False
@@ -588,7 +606,7 @@ class Model:
         self._region_common(dst, regname, r)
         s = self._check_copy(src, dst, cs, True)
         d = self.arr(dst)
-        self._do_copy(s, d, cs)
+        self._do_copy(s, d, cs, True)
         d.taint |= r.taint
         if cs:
             d.gexact = False
@@ -602,7 +620,7 @@ class Model:
         s, d = self._check_operate(dst, fn, src, cs, True)
         if ARR[dst]["glob"] and not ARR[src]["glob"]:
             raise Invalid("storage mismatch")
-        self._do_operate(dst, fn, s, d, cs, a, b)
+        self._do_operate(dst, fn, s, d, cs, a, b, True)
         d.taint |= r.taint
         if cs:
             d.gexact = False
@@ -975,6 +993,8 @@ class Gen:
                         if not dd:
                             continue
                         dst = self.pick(dd)
+                    if gated(kw, dst) and ARR[dst]["typ"] == "i" and dst in REGSETS.values():
+                        continue     # an ignored operation on a region set would change later selections
                     setl = self.pick([None, "M", "F", "O"])
                     rid = self.i(1, 3)
                     if kw == "COPYREG":
@@ -1097,7 +1117,7 @@ class C12(Check):
         "the same program.",
     ]
     EXAMPLES = {"quick": 250, "thorough": 4000}
-    MIN_EVALS = {"quick": 800, "thorough": 8000}
+    MIN_EVALS = {"quick": 600, "thorough": 5000}
     TIME_CAP = {"quick": 160, "thorough": 1050}
     LEVEL_TEXT = ("Generated-program search with two independent oracles.  Every generated program (<= 25 keywords: array "
                   "data in the whole grid or a BOX with n* entries, BOX/ENDBOX, EQUALS, ADD, MULTIPLY, MINVALUE, MAXVALUE, "
